@@ -230,6 +230,20 @@ def constrained_cases_ext():
     enum = univ.Enumerated(namedValues=univ.namedval.NamedValues(('a', 0), ('b', 1))).subtype(
         subtypeSpec=constraint.SingleValueConstraint(0, 1))
     out.append(('ENUMERATED {a(0), b(1)}, huge values', enum, [(tlv(10, huge), False), (tlv(10, b'\x01'), True)]))
+    union_int = univ.Integer().subtype(subtypeSpec=constraint.ConstraintsUnion(constraint.ValueRangeConstraint(0, 5),
+                                                                                constraint.SingleValueConstraint(9)))
+    out.append(('INTEGER (0..5 | 9), huge values', union_int, [(tlv(2, huge), False), (tlv(2, b'\x09'), True), (tlv(2, b'\x07'), False)]))
+    except_int = univ.Integer().subtype(subtypeSpec=constraint.ConstraintsExclusion(constraint.ValueRangeConstraint(0, 5)))
+    out.append(('INTEGER (ALL EXCEPT 0..5), huge values', except_int, [(tlv(2, huge), True), (tlv(2, b'\x03'), False)]))
+    rec_absent = univ.Sequence(componentType=namedtype.NamedTypes(
+        namedtype.OptionalNamedType('id', univ.Integer()),
+        namedtype.OptionalNamedType('name', univ.Integer().subtype(implicitTag=tag.Tag(tag.tagClassContext, tag.tagFormatSimple, 1))))
+    ).subtype(subtypeSpec=constraint.WithComponentsConstraint(('id', constraint.ComponentPresentConstraint()),
+                                                               ('name', constraint.ComponentAbsentConstraint())))
+    big_name = bytes.fromhex(tlv(0x81, huge))
+    out.append(('SEQUENCE WITH COMPONENTS {id PRESENT, name ABSENT}, huge values', rec_absent,
+                [(tlv(0x30, bytes.fromhex('020105') + big_name), False), (tlv(0x30, bytes.fromhex('020105')), True),
+                 (tlv(0x30, big_name), False)]))
     small_bits = univ.BitString().subtype(subtypeSpec=constraint.ValueSizeConstraint(1, 64))
     out.append(('BIT STRING (SIZE 1..64), huge values', small_bits,
                 [(tlv(3, b'\x00' + b'\xa5' * 2500), False), (tlv(3, b'\x00' + b'\xa5' * 8), True), (tlv(3, b'\x00' + b'\xa5' * 9), False)]))
